@@ -63,15 +63,15 @@ theorem C20_depth_two (w : World α) (p : Pair) (d : Nat)
 
 /-- **Convergence of assignments** (scalar traits, and whole-list assignment to
 `List` traits).  In any network, from any state with empty lock tables: let `y`
-be what `p`'s own trait makes of the assigned value; if every trait of the world
-either stores `y` unchanged or rejects it (`Fix`; e.g. all linked traits have the
-same idempotent validator) and the partner `q` of `p` stores it, then after
+be what `p`'s own trait makes of the assigned value; if every trait some link
+leads to either stores `y` unchanged or rejects it (`Fix`; e.g. all linked traits
+have the same idempotent validator) and the partner `q` of `p` stores it, then after
 `obj.p = v` nothing was raised and `p` and `q` both hold `y` — provided the
 assignment changed `p` or the two sides were equal before (re-assigning the
 value a trait already holds is not a change and notifies nobody). -/
 theorem C20_converge_scalar [DecidableEq α] (E : Sync.Env α) (w : World α) (p q : Pair) (v y : AVal α)
     (hL : w.locked = []) (he : (⟨p, q⟩ : Edge) ∈ w.edges)
-    (hv : validate E p v = .ok y) (hfix : Fix E y) (hq : validate E q y = .ok y)
+    (hv : validate E p v = .ok y) (hfix : Fix E w.edges y) (hq : validate E q y = .ok y)
     (hpre : w.val p ≠ y ∨ w.val q = w.val p) :
     (w.assign E p v).exc = none ∧ (w.assign E p v).world.val p = y ∧ (w.assign E p v).world.val q = y :=
   let h := assign_converges E w p q v y hL he hv hfix hq hpre
@@ -131,7 +131,7 @@ assignment changes every trait of the world at most once — to `y` — and call
 its recording handler exactly as often as it changed (0 or 1 times); a trait
 that already held `y` is neither changed nor notified. -/
 theorem C20_at_most_once [DecidableEq α] (E : Sync.Env α) (w : World α) (p : Pair) (v y : AVal α)
-    (hv : validate E p v = .ok y) (hfix : Fix E y) (r : Pair) :
+    (hv : validate E p v = .ok y) (hfix : Fix E w.edges y) (r : Pair) :
     ((w.assign E p v).world.val r = w.val r ∧ (w.assign E p v).world.nChg r = w.nChg r) ∨
     (w.val r ≠ y ∧ (w.assign E p v).world.val r = y ∧ (w.assign E p v).world.nChg r = w.nChg r + 1) := by
   unfold World.assign
@@ -139,7 +139,7 @@ theorem C20_at_most_once [DecidableEq α] (E : Sync.Env α) (w : World α) (p : 
   | error e => exact Or.inl ⟨rfl, rfl⟩
   | ok x =>
     obtain ⟨w', ret⟩ := x
-    exact (assign_once hfix _ w p v w' ret (fun new h => by rw [hv] at h; cases h; rfl) hc).1 r
+    exact (assign_once _ w p v w' ret hfix (fun new h => by rw [hv] at h; cases h; rfl) hc).1 r
 
 /-- **At most once (list items).** When the propagation of an in-place mutation
 reaches no trait twice, every recording `name_items` handler in the world is
